@@ -2,6 +2,7 @@ package level
 
 import (
 	"io"
+	"math/bits"
 	"strconv"
 
 	"github.com/Tnze/go-mc/level/biome"
@@ -35,7 +36,7 @@ func NewStatesPaletteContainer(length int, defaultValue BlocksState) *PaletteCon
 
 func NewStatesPaletteContainerWithData(length int, data []uint64, pat []BlocksState) *PaletteContainer[BlocksState] {
 	var p palette[BlocksState]
-	n := calcBitsPerValue(length, len(data))
+	n := savedBitsPerValue(length, len(data), len(pat), 4)
 	switch n {
 	case 0:
 		p = &singleValuePalette[BlocksState]{pat[0]}
@@ -66,6 +67,22 @@ func NewStatesPaletteContainerWithData(length int, data []uint64, pat []BlocksSt
 	}
 }
 
+// savedBitsPerValue returns the index width of a saved (palette, data) pair.
+// The number of longs alone is ambiguous (64 values of 3 bits and of 4 bits both
+// take 4 longs), so the palette size decides whenever it agrees with the data length.
+func savedBitsPerValue(length, longs, paletteLen, minBits int) int {
+	if paletteLen > 1 {
+		b := bits.Len(uint(paletteLen - 1))
+		if b < minBits {
+			b = minBits
+		}
+		if calcBitStorageSize(b, length) == longs {
+			return b
+		}
+	}
+	return calcBitsPerValue(length, longs)
+}
+
 func NewBiomesPaletteContainer(length int, defaultValue BiomesState) *PaletteContainer[BiomesState] {
 	return &PaletteContainer[BiomesState]{
 		bits:    0,
@@ -77,7 +94,7 @@ func NewBiomesPaletteContainer(length int, defaultValue BiomesState) *PaletteCon
 
 func NewBiomesPaletteContainerWithData(length int, data []uint64, pat []BiomesState) *PaletteContainer[BiomesState] {
 	var p palette[BiomesState]
-	n := calcBitsPerValue(length, len(data))
+	n := savedBitsPerValue(length, len(data), len(pat), 1)
 	switch n {
 	case 0:
 		p = &singleValuePalette[BiomesState]{pat[0]}
